@@ -99,7 +99,7 @@ def main():
                 meta["demo_exit_with_patch"] = demo(os.path.join(d, "demo.py"))
             for cid in checks:
                 t0 = time.time()
-                r = sh(f"cd {ROOT} && {PYP}VERIF_SEED=0 ./check {cid} --tier quick")
+                r = sh(f"cd {ROOT} && {PYP}VERIF_EVIDENCE_DIR={ROOT}/.work/evidence-matrix VERIF_SEED=0 ./check {cid} --tier quick")
                 viol = [l for l in r.stdout.splitlines() if l.startswith("VIOLATION")]
                 first = ""
                 lines = r.stdout.splitlines()
@@ -119,7 +119,6 @@ def main():
         rows.append((name, f"{meta.get('demo_exit_with_patch')}/{meta.get('demo_exit_without_patch')}", ",".join(checks), ",".join(caught) or "MISSED",
                      (meta["checks_run"][caught[0]]["first_violation"] if caught else "")[:140]))
         print(rows[-1], flush=True)
-    sh(f"git -C {ROOT} checkout -- evidence")
     if not sys.argv[1:]:
         with open(os.path.join(SEEDED, "RESULTS.md"), "w") as f:
             f.write(f"# Seeded changes against the quick checks (repo HEAD {head})\n\n| seed | demo exit with/without patch | checks run | caught by | first violation line |\n|---|---|---|---|---|\n")
